@@ -200,6 +200,30 @@ class Setup:
             if not cand.hash() < cand.target:
                 quiet(mw.handle_scrypt_output_message, 0, summary_hash)
                 continue
+            # sometimes the head MOVES between the request that built this candidate and the hit: a peer's block on the same
+            # parent arrives first, and a second miner process asks for work (which moves the watcher's view to the new head).
+            # The found block is then a valid sibling of the head: part of the served state (not its head), stored, broadcast.
+            self.late_sibling = False
+            parent_id = cm.coinstate.current_chain_hash
+            if self.peers and self.rng.random() < 0.15 and cand.header.summary.previous_block_hash == parent_id \
+                    and parent_id in world.chain.blocks:
+                try:
+                    par = world.chain.blocks[parent_id]
+                    rbB, realB = world.assemble(parent_id, [], par.ts + 1, world.keys[0][1], route="ref")
+                    self.net.clock.t = max(self.net.clock.t, rbB.ts)
+                    r = self.rng.choice(self.peers)
+                    r.push(self.wire.block(realB))
+                    self.net.settle(node)
+                    if cm.coinstate.current_chain_hash == rbB.id():
+                        world.cs = world.cs.add_block_no_validation(realB)
+                        world.accept(rbB, realB, cs=world.cs)
+                        while len(mw.send_queues) < 2:
+                            mw.send_queues.append(StubQueue())
+                        quiet(mw.handle_request_scrypt_input_message, 1, (nonce + 77) & 0xFFFFFFFF)
+                        self.late_sibling = True
+                        c["found_after_the_head_moved"] = c.get("found_after_the_head_moved", 0) + 1
+                except Exception:
+                    pass
             return self.judge_found(cand, summary_hash, w_base)
         return False
 
@@ -233,7 +257,10 @@ class Setup:
             mon.v("found-candidate-fails-own-validation", "the node's own full validation rejects its candidate: %r" % (e,), w)
         if not rb.ts > parent.ts:
             mon.v("candidate-timestamp-not-after-parent", "timestamp %d, parent %d" % (rb.ts, parent.ts), w)
-        if rb.prev != served_before.current_chain_hash:
+        late = getattr(self, "late_sibling", False)
+        if late:
+            w = dict(w, head_moved_before_the_hit=True)
+        if rb.prev != served_before.current_chain_hash and not late:
             mon.v("candidate-not-on-current-head", "candidate extends a block that is not the served head", w)
         # reward
         led = world.ledger(rb.prev)
@@ -251,7 +278,7 @@ class Setup:
             c["found_with_transactions"] += 1
             c["pool_transactions_included"] += len(rb.txs) - 1
         included = {t.id() for t in rb.txs[1:]}
-        if included != {t.id() for t in pool}:
+        if included != {t.id() for t in pool} and not late:
             mon.v("candidate-does-not-contain-the-pool", "candidate has %d transactions, pool has %d" % (len(included), len(pool)), w)
         # let the real found-block handler run
         for r in self.peers:
@@ -331,7 +358,7 @@ class Setup:
         if bid not in served.block_by_hash:
             mon.v("found-block-not-in-served-chain-state", "after the found-block handler the block (h=%d) is not part of the "
                   "chain state the node serves to peers; served head is h=%d" % (rb.height, served.head().height), w)
-        elif served.current_chain_hash != bid:
+        elif served.current_chain_hash != bid and not late:
             mon.v("found-block-not-head-of-served-state", "found block extends the head but the served head is another block", w)
         c["store_rows_checked"] += 1
         rows = [bytes(x[0]) for x in self.ro.execute("select block_hash from chain")]
@@ -378,7 +405,7 @@ class Setup:
                 served2 = cm.coinstate
                 if bad.id() in served2.block_by_hash:
                     mon.v("invalid-peer-block-in-served-state", "a rule-breaking block pushed by a peer entered the served state", w)
-                if bid not in served2.block_by_hash or served2.current_chain_hash != bid:
+                if bid not in served2.block_by_hash or (served2.current_chain_hash != bid and not late):
                     mon.v("found-block-dropped-from-served-state", "after a peer pushed a rule-breaking block (refused), the block the "
                           "node had just mined (h=%d) is no longer %s the chain state it serves" % (
                               rb.height, "part of" if bid not in served2.block_by_hash else "the head of"), w)
@@ -480,6 +507,7 @@ def finalize(m, tier):
                    ("clock_ticks_while_mining", c.get("clock_ticks_while_mining", 0), 300),
                    ("found_while_other_thread_flushes", c.get("found_while_other_thread_flushes", 0), 30),
                    ("found_while_a_connection_is_half_dropped", c.get("found_while_a_connection_is_half_dropped", 0), 20),
-                   ("conflicting_offers_to_the_pool", c.get("conflicting_offers_to_the_pool", 0), 40)],
+                   ("conflicting_offers_to_the_pool", c.get("conflicting_offers_to_the_pool", 0), 40),
+                   ("found_after_the_head_moved", c.get("found_after_the_head_moved", 0), 10)],
         "extra": {},
     }
